@@ -154,6 +154,7 @@ class Window:
         self.vac = [set(), set()]
         self.dirmoves = []          # (side, old, new)
         self.nops = [0, 0]
+        self.dirty = set()          # objects created or written in this window (create/mkdir/write/rename destinations)
 
 
 class World:
@@ -167,6 +168,7 @@ class World:
         self.ever_deleted = [set(), set()]
         self.path_style = path_style
         self.retired = set()        # paths consumed by conflict gadgets: never touched again
+        self.guard_retouch = False  # when set: no op may touch an object created/written earlier in this window
         self.ncontent = 0
         self.excluded = Counter()
         if hazards is None:
@@ -198,6 +200,11 @@ class World:
                 if under(p, r):
                     return "RETIRED"
         H = self.hazards
+        if self.guard_retouch:
+            for p in touched:
+                for n in win.dirty:
+                    if under(p, n):
+                        return "CRASH_THEN_TOUCH_NEW"
         if "PATH_REUSE" in H and occ & win.vac[s]:
             return "PATH_REUSE"
         if "DIRMOVE_ISOLATED" in H:
@@ -242,6 +249,10 @@ class World:
         win.Wpre[s] |= Wpre
         win.vac[s] |= vac
         win.nops[s] += 1
+        if op in ("create", "mkdir", "write"):
+            win.dirty.add(a[0])
+        elif op == "rename":
+            win.dirty.add(a[1])
         if op in ("delete", "rmtree"):
             self.ever_deleted[s] |= vac
         if op == "rename" and Wpre:
@@ -297,6 +308,8 @@ class World:
         if self.exp_valid:
             self.side = [self.exp.copy(), self.exp.copy()]
         self.win = Window()
+        if self.guard_retouch == "window":
+            self.guard_retouch = False
 
     # ---- candidate enumeration
     def new_paths(self, s):
